@@ -228,7 +228,7 @@ impl<T: HashAlgorithm> Nomt<T> {
         let store = Store::open(&o, page_pool.clone())?;
         let root_page = store.load_page(ROOT_PAGE_ID)?;
         let page_cache = PageCache::new(root_page, &o, metrics.clone());
-        let root = compute_root_node::<T>(&page_cache, &store);
+        let root = compute_root_node::<T>(&page_cache, &store)?;
 
         if o.prepopulate_page_cache {
             let io_handle = store.io_pool().make_handle();
@@ -889,7 +889,10 @@ pub trait HashAlgorithm: ValueHasher + NodeHasher {}
 
 impl<T: ValueHasher + NodeHasher> HashAlgorithm for T {}
 
-fn compute_root_node<H: HashAlgorithm>(page_cache: &PageCache, store: &Store) -> Node {
+fn compute_root_node<H: HashAlgorithm>(
+    page_cache: &PageCache,
+    store: &Store,
+) -> std::io::Result<Node> {
     // 3 cases.
     // 1: root page is empty and beatree is empty. in this case, root is the TERMINATOR.
     // 2: root page is empty and beatree has a single item. in this case, root is a leaf.
@@ -901,7 +904,7 @@ fn compute_root_node<H: HashAlgorithm>(page_cache: &PageCache, store: &Store) ->
 
         if left != TERMINATOR || right != TERMINATOR {
             // case 3
-            return H::hash_internal(&InternalData { left, right });
+            return Ok(H::hash_internal(&InternalData { left, right }));
         }
     }
 
@@ -913,7 +916,7 @@ fn compute_root_node<H: HashAlgorithm>(page_cache: &PageCache, store: &Store) ->
 
     loop {
         match iterator.next() {
-            None => return TERMINATOR, // case 1
+            None => return Ok(TERMINATOR), // case 1
             Some(beatree::iterator::IterOutput::Blocked) => {
                 // UNWRAP: when blocked, needed leaf always exists.
                 let leaf = match read_tx.load_leaf_async(
@@ -925,6 +928,7 @@ fn compute_root_node<H: HashAlgorithm>(page_cache: &PageCache, store: &Store) ->
                     Err(leaf_load) => {
                         // UNWRAP: `Err` indicates a request was sent.
                         let complete_io = io_handle.recv().unwrap();
+                        complete_io.result?;
 
                         // UNWRAP: the I/O command submitted by `load_leaf_async` is always a `Read`
                         leaf_load.finish(complete_io.command.kind.unwrap_buf())
@@ -935,17 +939,17 @@ fn compute_root_node<H: HashAlgorithm>(page_cache: &PageCache, store: &Store) ->
             }
             Some(beatree::iterator::IterOutput::Item(key_path, value)) => {
                 // case 2
-                return H::hash_leaf(&LeafData {
+                return Ok(H::hash_leaf(&LeafData {
                     key_path,
                     value_hash: H::hash_value(value),
-                });
+                }));
             }
             Some(beatree::iterator::IterOutput::OverflowItem(key_path, value_hash, _)) => {
                 // case 2
-                return H::hash_leaf(&LeafData {
+                return Ok(H::hash_leaf(&LeafData {
                     key_path,
                     value_hash,
-                });
+                }));
             }
         }
     }
